@@ -105,7 +105,20 @@ func (r *Req) String() string {
 	if r.Err != nil {
 		res = r.ErrReason()
 	}
-	return fmt.Sprintf("#%d %s %s %s %s/%s/%s%s -> %s [%s]", r.Seq, r.Actor, r.Verb, r.Cluster, r.GVK.Kind, r.NS, r.Name, o, res, r.Site)
+	own := ""
+	if r.IsWrite() && !r.DryRun && r.After != nil && r.GVK.Group != PKOGroup && r.Changed {
+		for _, st := range []string{"native", "annotation"} {
+			for _, ow := range Owners(r.After, st) {
+				c := ""
+				if ow.Controller {
+					c = "*"
+				}
+				own += " " + ow.Name + c
+			}
+		}
+		own = " owners:[" + strings.TrimSpace(own) + "] rev=" + store.Annotations(r.After)[annRevision]
+	}
+	return fmt.Sprintf("#%d %s %s %s %s/%s/%s%s -> %s%s [%s]", r.Seq, r.Actor, r.Verb, r.Cluster, r.GVK.Kind, r.NS, r.Name, o, res, own, r.Site)
 }
 
 // Pass groups the requests of one Reconcile call.
@@ -213,12 +226,12 @@ func actorFrom(ctx context.Context) *Actor {
 
 // Client implements client.Client directly on a simulated cluster.
 type Client struct {
-	w       *World
-	p       *Process
-	cl      *store.Cluster
-	name    string
-	cached  bool // typed reads are served from the process view
-	sub     string
+	w      *World
+	p      *Process
+	cl     *store.Cluster
+	name   string
+	cached bool // typed reads are served from the process view
+	sub    string
 }
 
 var _ client.Client = (*Client)(nil)
@@ -323,7 +336,6 @@ func (c *Client) newReq(ctx context.Context, verb string, gvk schema.GroupVersio
 	r := &Req{Cluster: c.cl.Name, Verb: verb, GVK: gvk, NS: ns, Name: name, Client: c.name, Site: callSite()}
 	return r
 }
-
 
 func (c *Client) Get(ctx context.Context, key client.ObjectKey, obj client.Object, _ ...client.GetOption) error {
 	_, gvk, err := toObj(obj)
